@@ -367,16 +367,22 @@ class SimLikelihood:
 # ----------------------------------------------------------------------------
 # fake worker pool
 # ----------------------------------------------------------------------------
+class PoolShutdownError(RuntimeError):
+    """Raised by a FakePool whose shutdown was told to fail."""
+
+
 class FakePool:
     """In-process stand-in for ``multiprocessing.Pool``: records calls, can
-    fail inside ``map`` (worker failure)."""
+    fail inside ``map`` (worker failure) and inside its own shutdown
+    (``fail_close`` = "close" | "join": that call raises ``PoolShutdownError``)."""
 
-    def __init__(self, name="pool", fail_map_at: int | None = None):
+    def __init__(self, name="pool", fail_map_at: int | None = None, fail_close: str | None = None):
         self.name = name
         self.n_map = 0
         self.n_close = 0
         self.n_join = 0
         self.fail_map_at = fail_map_at
+        self.fail_close = fail_close
 
     def map(self, fn, iterable, chunksize=None):
         k = self.n_map
@@ -387,6 +393,10 @@ class FakePool:
 
     def close(self):
         self.n_close += 1
+        if self.fail_close == "close":
+            raise PoolShutdownError("pool.close failed")
 
     def join(self):
         self.n_join += 1
+        if self.fail_close == "join":
+            raise PoolShutdownError("pool.join failed")
